@@ -331,7 +331,9 @@ func c01DirectScenario(cs c01Direct) *mc.Scenario {
 
 func runC01(c *Ctx) {
 	pb := c.Pick(3, 4)
-	opt := mc.Options{PreemptBound: pb, DevBound: 0}
+	// small scenarios: happens-before caching is switched off, so that a change which makes plain
+	// accesses racy (a removed lock) cannot hide behind states merged on the assumption of race freedom
+	opt := mc.Options{PreemptBound: pb, DevBound: 0, NoCache: true}
 	for _, kind := range []string{"simple", "precise"} {
 		cases := []c01Case{
 			{name: "G1-race-2", kind: kind, traj: []int{1}, progs: []string{"A", "A"}},
